@@ -278,3 +278,37 @@ def pure_dephasing(cx, N, dtype):
     ref = taylor(gen, rho0, dt, 2)
     for a in range(N):
         cx.prove_eq("diagonal_untouched[%d]" % a, d1[a, a], ref[a, a])
+
+
+@harness("C02", "kernel_lemmas",
+         quick=[dict(N=3, nb=2)], thorough=[dict(N=3, nb=2), dict(N=4, nb=2), dict(N=2, nb=3)],
+         functions=[F_P + ":_COM", F_P + ":_TTI", F_P + ":_OTI"],
+         bound="inductive step for any number of steps, refinements and orders: N<=3 (thorough 4), <=2 operator "
+               "components; for an ARBITRARY Hermitian X, Hermitian H, tensor with the C01 identities / operators "
+               "K real, Lambda complex, expansion index l and dt symbolic: one sub-step increment is traceless and "
+               "Hermitian, so every partial sum of the expansion of a unit-trace Hermitian state keeps trace 1 and "
+               "Hermiticity",
+         out="")
+def kernel_lemmas(cx, N, nb):
+    from quantarhei.qm.propagators.rdmpropagator import _COM, _TTI, _OTI
+    H = cx.hermitian("H", N)
+    X = cx.hermitian("X", N)
+    dt = cx.real("dt", 0.01, 0.2)
+    R = tensor_with_identities(cx, N)
+    for ll in (1, 3):
+        inc = -_COM(H, ll, dt, X)
+        cx.prove_eq("COM_traceless[l=%d]" % ll, numpy.trace(inc), 0)
+        cx.prove_eq("COM_hermitian[l=%d]" % ll, inc, numpy.conj(inc.T))
+        y = numpy.zeros((N, N), dtype=complex)
+        _TTI(y, R, 0.0, ll, dt, X, L=4)
+        cx.prove_eq("TTI_traceless[l=%d]" % ll, numpy.trace(y), 0)
+        cx.prove_eq("TTI_hermitian[l=%d]" % ll, y, numpy.conj(y.T))
+        cx.prove_eq("TTI_value[l=%d]" % ll, y, (dt / ll) * numpy.tensordot(R, X))
+    Km = cx.real_array("K", (nb, N, N))
+    Lm = cx.cplx_array("L", (nb, N, N))
+    Ld = numpy.conj(numpy.transpose(Lm, (0, 2, 1)))
+    Kd = numpy.transpose(Km, (0, 2, 1))
+    y = numpy.zeros((N, N), dtype=complex)
+    _OTI(y, Km, Kd, Lm, Ld, 2, dt, X)
+    cx.prove_eq("OTI_traceless", numpy.trace(y), 0)
+    cx.prove_eq("OTI_hermitian", y, numpy.conj(y.T))
